@@ -235,6 +235,12 @@ def check_class(ctx, cls):
         ctx.ob("R17-DIM", int(p) == d_guard, cls.file, qual, "guard dimension equals documented dimension",
                "documented ^%s, guard %s" % (p, d_guard), f.lineno)
     ranges = PARAM_RANGES.get(name, {})
+    # f is the function the class body defines: a decorator replaces it by something else (a cache that makes the value depend on
+    # earlier calls, a wrapper that post-processes it), and nothing proved about the body would describe what callers get
+    decos = [norm_src(dc) for dc in f.decorator_list]
+    ctx.ob("R17-PURE", not decos, cls.file, qual, "f is called as written (no decorator)",
+           "no decorator" if not decos else "f is wrapped by %s: callers get the wrapper's value, which the analysis of the body does not "
+           "describe (a memo keyed on a rounded point, for instance, makes f depend on the evaluation history)" % decos, f.lineno, nontrivial=False)
     for d in dims:
         xs = [sp.Symbol("x%d" % k, real=True) for k in range(d)]
         atoms = []
